@@ -26,6 +26,7 @@ import (
 	"regexp"
 	"sort"
 	"strings"
+	"sync"
 	"time"
 
 	"github.com/imroc/req/v3/verifharness/hk"
@@ -39,25 +40,59 @@ type childCase struct {
 }
 
 type childResult struct {
+	mu       sync.Mutex
 	Cases    []childCase    `json:"cases"`
 	Failures []hk.Failure   `json:"failures"`
 	Counts   map[string]int `json:"counts"`
 	Notes    []string       `json:"notes"`
 }
 
-func (cr *childResult) count(k string) { cr.Counts[k]++ }
+func (cr *childResult) count(k string) {
+	cr.mu.Lock()
+	cr.Counts[k]++
+	cr.mu.Unlock()
+}
 func (cr *childResult) countN(k string, n int) {
+	cr.mu.Lock()
 	if n != 0 {
 		cr.Counts[k] += n
 	}
+	cr.mu.Unlock()
 }
 func (cr *childResult) fail(f hk.Failure) {
+	cr.mu.Lock()
 	if len(cr.Failures) < 50 {
 		cr.Failures = append(cr.Failures, f)
 	}
+	cr.mu.Unlock()
 }
 func (cr *childResult) add(coq string, desc interface{}, key string, nt bool) {
+	cr.mu.Lock()
 	cr.Cases = append(cr.Cases, childCase{coq, desc, key, nt})
+	cr.mu.Unlock()
+}
+
+// waitOrStall waits for the callers of one round.  A round takes well under a second; callers
+// that are still blocked after d (a minute or more) are blocked for ever.
+func waitOrStall(wg *sync.WaitGroup, d time.Duration) bool {
+	ch := make(chan struct{})
+	go func() { wg.Wait(); close(ch) }()
+	select {
+	case <-ch:
+		return true
+	case <-time.After(d):
+		return false
+	}
+}
+
+// stallExit records the failure and ends the phase at once (blocked goroutines are left behind:
+// the results gathered so far are written and the child process exits).
+func stallExit(cr *childResult, f hk.Failure) {
+	cr.fail(f)
+	cr.mu.Lock()
+	b, _ := json.Marshal(cr)
+	os.WriteFile(os.Args[5], b, 0o644)
+	os.Exit(0)
 }
 
 var phases = map[string]func(cr *childResult, seed uint64, quick bool){
@@ -76,7 +111,13 @@ func main() {
 		fmt.Sscan(os.Args[3], &seed)
 		cr := &childResult{Counts: map[string]int{}}
 		go func() { // watchdog
-			time.Sleep(12 * time.Minute)
+			// a phase that hangs (requests blocked for ever, deadlock) is reported as a crash of
+			// the phase; the quick tier's phases take 5-20 s
+			limit := 4 * time.Minute
+			if os.Args[4] == "thorough" {
+				limit = 45 * time.Minute
+			}
+			time.Sleep(limit)
 			fmt.Fprintln(os.Stderr, "C09 child watchdog: phase", os.Args[2], "did not finish")
 			os.Exit(3)
 		}()
